@@ -58,8 +58,10 @@ class VBound(object):
 
 
 class VClass(object):
+  _ids = {}
   def __init__(self, name):
     self.name = name
+    self.fn_id = VClass._ids.setdefault(name, 7000000 + len(VClass._ids))
   ty = FN
 
 
@@ -135,7 +137,7 @@ def _default_terms(ty):
 
 def coerce(v, ty):
   """Single z3 term of v at scalar/reference type ty."""
-  if isinstance(v, (VFunc, VBound)) and ty.k in ('fn', 'any'):
+  if isinstance(v, (VFunc, VBound, VClass)) and ty.k in ('fn', 'any'):
     return z3.IntVal(v.fn_id)
   if isinstance(v, (VFunc, VBound, VClass, VModule)):
     raise Unsupported('storing a callable into %r' % ty)
